@@ -2,10 +2,10 @@
 # usage: seedmatrix.sh <seed-id> [props...]
 #   Runs checks against a scratch worktree of /repo HEAD with seeded/<seed-id>/patch.diff applied
 #   (never against /repo itself) and removes the worktree. Without a property list all 20 checks run.
-#   Output: /tmp/mxv/<seed-id>/<Cnn>.log ; one summary line on stdout.
+#   Output: $MXV (default /tmp/mxv)/<seed-id>/<Cnn>.log ; one summary line on stdout. OJGCHECK_BIN selects the checker binary.
 sid=$1; shift
 patch=/verif/seeded/$sid/patch.diff
-wt=/tmp/mx/$sid; out=/tmp/mxv/$sid
+wt=/tmp/mx/$sid; out=${MXV:-/tmp/mxv}/$sid; bin=${OJGCHECK_BIN:-/verif/bin/ojgcheck}
 rm -rf $wt $out; mkdir -p /tmp/mx $out
 git -C /repo worktree add -q --detach $wt HEAD || exit 1
 ( cd $wt && (git apply $patch 2>/dev/null || git apply --3way $patch >/dev/null 2>&1) ) || { echo "$sid PATCH-FAIL"; git -C /repo worktree remove --force $wt; exit 0; }
@@ -14,7 +14,7 @@ props="$@"
 [ -z "$props" ] && props="C01 C02 C03 C04 C05 C06 C07 C08 C09 C10 C11 C12 C13 C14 C15 C16 C17 C18 C19 C20"
 res=""
 for p in $props; do
-  /verif/bin/ojgcheck -repo $wt -prop $p -verif $out > $out/$p.log 2>&1; code=$?
+  $bin -repo $wt -prop $p -verif $out > $out/$p.log 2>&1; code=$?
   if [ $code -ne 0 ]; then res="$res $p=$code"; fi
 done
 echo "$sid :$res"
